@@ -2,7 +2,7 @@
 
 Spec: specs/Dispatch.tla (per-file dispatch state machine, one action per
 mutex region, W workers x report arrival x verdict arrival, all inputs chosen
-in Init) and specs/Sched.tla (file activation over P slots).
+in Init) (specs/Sched.tla: file activation over P slots).
   1. TLC, exhaustive, intended-design switches: all invariants + deadlock
      freedom before End; a fairness config checks <>(End).
   2. Non-vacuity: the two defect switches (what the code did before the two
@@ -12,11 +12,20 @@ in Init) and specs/Sched.tla (file activation over P slots).
      overlay shim); the property oracle is evaluated on the real return
      values, then the run is driven to quiescence and the end-of-run oracle
      applied.
-  4. Binding A2/B: real SendManifestMultiStream runs against a scripted
-     receiver (resume report delivered early / late, match / mismatch);
-     observed frames are checked by the same oracle and the hook trace is
-     validated against Dispatch.tla (see checks/dispatch_e2e in the driver).
-  5. Scheduler: traces of the real HybridScheduler validated against Sched.tla.
+  4. Binding A2 (checks/C17_e2e.py, driver dispatch-e2e): every input of the
+     model runs through the real SendManifestMultiStream against a scripted,
+     protocol-conformant receiver whose resume report arrives at once or late
+     (after the grace period; the first chunk frame is held on the wire until
+     the `send.plan.set` hook has fired).  The frames observed on the wrapped
+     data streams carry ticks of a logical clock shared with the hook
+     handler; the property's clauses are judged on them: exact frame multiset
+     when the report precedes dispatch, no reported chunk taken after the
+     plan, a delivered report is applied, re-send exactly once, one FileEnd
+     after the last frame.
+  5. Scheduler (checks/C17_sched.py): Sched.tla model-checked (OnceOnly,
+     ReturnedMeansStarted, NoStall, liveness AllBegun); the real
+     HybridScheduler is walked along its state graph the way the sender uses
+     it (Add, Next, re-Add with the start time, UpdateRemaining, Remove).
 """
 import os
 import vlib
@@ -67,12 +76,13 @@ def run(tier, seed):
             res['drift'], str(res.get('drift_samples', [])[:1])[:600]))
         print("DRIFT C17: %d behaviours where the real object differs from the spec (not a verdict)" % res['drift'])
     # 4/5. end-to-end sender + scheduler traces
-    extra = {}
-    try:
-        import C17_e2e
-        extra = C17_e2e.run(v, tier, seed, work)
-    except ImportError:
-        pass
+    import C17_e2e
+    import C17_sched
+    extra = C17_e2e.run(v, tier, seed, work)
+    sched = C17_sched.run(v, tier, seed, work)
+    extra['traces'] = extra.get('traces', 0) + sched['traces']
+    extra['samples'] = extra.get('samples', []) + sched['samples']
+    extra['summary'] = dict(sender=extra.get('summary'), scheduler=sched['summary'])
     v.coverage = dict(
         states=r['distinct'], transitions=r['generated'],
         traces_validated_against_impl=res['behaviours'] + extra.get('traces', 0),
